@@ -174,3 +174,50 @@ Theorem C02_map_min_after_collision_refuted :
     is_err (c02_validate 3 c02_env c02_collide_schema n) = true.
 Proof. exact c02_map_min_after_collision. Qed.
 Print Assumptions C02_map_min_after_collision_refuted.
+
+(* ---------- blank texts ---------- *)
+(* A text that consists of white space only (strings.TrimSpace leaves nothing) denotes no number.  With units the parser
+   trims and THEN refuses the empty text (UnitsDefinition.parse; Schema/Units.v parse_units), strconv.ParseInt does not trim
+   at all: for every unit definition (or none), every bound and every enum table, Unserialize is a constraint error - never
+   the number 0.  The same text as a map key or list item is refused with that position's segment in front.
+   (Seeded change C02-r2m1 = C16-r2m2 swaps the guard and the trimming and reads " " as 0.) *)
+From Verif Require Import Proofs.C17 Proofs.C02Blank.
+
+Theorem C02_blank_text_not_an_int : forall words pu f e mn mx u s, blank_text s ->
+  unser words pu (S f) e (SInt mn mx u) (VStr TStr s) = Err (cerr ERepr).
+Proof. exact blank_text_not_an_int. Qed.
+Print Assumptions C02_blank_text_not_an_int.
+
+Theorem C02_blank_text_not_an_enum_int : forall words pu f e vals u s, blank_text s ->
+  unser words pu (S f) e (SEnumInt vals u) (VStr TStr s) = Err (cerr ERepr).
+Proof. exact blank_text_not_an_enum_int. Qed.
+Print Assumptions C02_blank_text_not_an_enum_int.
+
+Theorem C02_blank_text_not_a_unit_float : forall words f e mn mx us s, blank_text s ->
+  unser words parse_units_float (S f) e (SFloat mn mx (Some us)) (VStr TStr s) = Err (cerr ERepr).
+Proof. exact blank_text_not_a_unit_float. Qed.
+Print Assumptions C02_blank_text_not_a_unit_float.
+
+Theorem C02_blank_text_map_key_refused : forall words pu f e mn mx u vs mn' mx' t nl kvs1 s x kvs2, blank_text s ->
+  size_ok mn' mx' (zlen (kvs1 ++ (VStr TStr s, x) :: kvs2)) = true ->
+  Forall (entry_ok (unser words pu (S f) e (SInt mn mx u)) (unser words pu (S f) e vs)) kvs1 ->
+  unser words pu (S (S f)) e (SMap (SInt mn mx u) vs mn' mx') (VMap t nl (kvs1 ++ (VStr TStr s, x) :: kvs2))
+  = Err (add_seg (mkey_seg (VStr TStr s)) (cerr ERepr)).
+Proof. exact blank_text_map_key_refused. Qed.
+Print Assumptions C02_blank_text_map_key_refused.
+
+(* blank = made of TrimSpace's ASCII white-space characters only (both directions) *)
+Theorem C02_blank_text_iff_all_space : forall s, blank_text s <-> forallb is_trim_space (chars s) = true.
+Proof. intro s. split; [exact (blank_all_space s) | exact (all_space_blank s)]. Qed.
+Print Assumptions C02_blank_text_iff_all_space.
+
+Example C02_blank_text_instance :
+  blank_text " " /\ ~ blank_text " 0 " /\
+  is_err (c02_unser 1 c02_env (SInt None None (Some unit_duration_seconds)) (VStr TStr " ")) = true /\
+  c02_unser 1 c02_env (SInt None None (Some unit_duration_seconds)) (VStr TStr " 0 ") = Ok (vi64 0) /\
+  c02_unser 1 c02_env (SInt None None (Some unit_duration_seconds)) (VStr TStr " 1m30s ") = Ok (vi64 90) /\
+  is_err (c02_unser 1 c02_env (SInt None None None) (VStr TStr " 0 ")) = true.
+Proof.
+  split; [vm_compute; reflexivity|]. split; [vm_compute; discriminate|].
+  vm_compute. repeat split; reflexivity.
+Qed.
